@@ -16,6 +16,8 @@ def run(ctx, rep):
                       "and the dispatch unless the receive lock is still held (a waiter woken early re-enters poll() and "
                       "sleeps until its timeout although its reply is being processed)")
     rep.rule("R14.2", "AsyncResult.wait re-checks readiness between serve() calls, blocks on nothing else, and passes its own expiry")
+    rep.rule("R14.4", "a waiter cannot sleep through the hand-off: try-acquire and wait() are atomic under the condition, all waiters "
+                      "are woken after the release on every exit (= R13.1, R13.4)")
     rep.rule("R14.3", "a thread that loses the try-lock sleeps on the condition (with the remaining time), not on the channel")
     rep.assume("the actual latency is not decided, only the ordering that causes the stall")
 
@@ -101,3 +103,5 @@ def run(ctx, rep):
     rep.ob("R14.3", "serve(): the loser of the try-lock never touches the channel", not touches,
            "no channel access is reachable from the failed-try-lock edge" if not touches else
            "a thread that failed the try-lock goes on to poll/read the channel", ctx.loc(touches[0]) if touches else f.loc)
+
+    K.share(ctx, rep, "c13", lambda o: o.rule in ("R13.1", "R13.4"), "R14.4", floor=6)
